@@ -64,7 +64,8 @@ FanOut(o, S, t, q, pl) ==
   [c \in Everyone |-> IF Deliveries(S, c, t, q, pl) = {} THEN o[c] ELSE Append(o[c], Deliveries(S, c, t, q, pl))]
 
 Log(a) == /\ last' = a /\ prev' = abs /\ steps' = steps + 1
-          /\ hist' = Append(hist, [a |-> a, out |-> out', closed |-> closed'])
+          /\ hist' = Append(hist, [a |-> a, out |-> out', closed |-> closed',
+                                    nsess |-> Cardinality({k \in Cids : sess'[k].ex})])
 
 -----------------------------------------------------------------------------
 (* CONNECT accepted (3.1, 3.2): session lookup, CONNACK with SessionPresent, stored
@@ -87,7 +88,7 @@ Connect(c, k, clean, will) ==
    CONNACK: "reserved", "willflags", "notconnect", "truncated", "garbage"              *)
 RefuseCode(kind) == CASE kind \in {"level", "name"} -> 1
                       [] kind \in {"idlong", "idbad", "idempty0"} -> 2
-                      [] kind = "auth" -> 4
+                      [] kind \in {"auth", "auth-k1-clean", "auth-k1-keep"} -> 4   \* rejected credentials, also with a known client id
                       [] OTHER -> 0
 Refuse(c, kind, follow) ==
   /\ c \in Conns /\ conn[c].st = "free"
